@@ -5,6 +5,7 @@ import QV.Proofs.Front9
 import QV.Proofs.Front10
 import QV.Proofs.Front11
 import QV.Proofs.A2A6
+import QV.Proofs.A2A7
 import QV.Model.Front
 /-!
 # C01 – Boolean expressions mean what the Python source means
@@ -628,12 +629,37 @@ theorem C01_guarded (p : Prog) (consts : List (Bool × Bool)) (hp : Sem.guardedL
 real pass on every run).  `QV/Model/SemSrc.lean` gives the *source* tree a meaning with control flow
 (`A2A.execProg`): an `if` evaluates its test once, to a value, before any statement of a branch runs; the
 branch whose polarity the value has runs, the other changes no value (`A2A.exec` under a guard stack;
-an assignment under the stack stores `wrapW gs new old`).  Class `A2A.okProg` (decidable): user names,
-statements `t = e`, `t op= e` (every operator but `**`), `if` / `elif` / `else` nested to any depth through
-else branches, expression statements and `return e` at the top level, `e` plain (`A2A.plainE`). -/
+an assignment under the stack stores `wrapW gs new old`); a `for` assigns the loop variable each value in turn and
+runs the body in the environment so extended.  Class `A2A.okProg` (decidable): user names, statements `t = e`,
+`t op= e` (every operator but `**`), `if` / `elif` / `else` nested to any depth through else branches (no loop
+inside an `if`), `for v in <range of int literals | tuple | list of int / bool literals>` nested to any depth with
+`if`s inside, expression statements and `return e` at the top level, `e` plain (`A2A.plainE`: user variables,
+bool / int constants, `not`, `~`, `and` / `or`, if-expressions, comparisons, binary operators, shifts by a
+literal). -/
 
 open QV.A2A in
-/-- **ast2ast_if_preserved** – running the rewritten straight-line list under `Sem.semProg` gives the value
+/-- **skipped_branch_keeps_values** – the guard-stack semantics is control flow.  Under a stack one of whose guards
+does not hold, whatever a statement does (assignments, loops, nested `if`s) leaves every variable with the python
+value it had (`SameVals`: same bool, same integer – its `Qint` type may have been widened, the library's typing of
+`new if g else old`). -/
+theorem skipped_branch_keeps_values (s : SStmt) (gs : List (Sem.SVal × Bool)) (hg : allHold gs = false)
+    (σ σ' : Sem.SEnv) (h : exec gs σ s = some σ') : SameVals σ σ' :=
+  exec_skipped_keeps_values s gs hg σ σ' h
+
+open QV.A2A in
+/-- **if_one_branch** – an `if` evaluates its test once, to `g`, and the statements of the branch `g` does not
+select change no value; an assignment under guards that all hold stores the value of its right-hand side
+(`wrapW_taken`) -/
+theorem if_one_branch (gs : List (Sem.SVal × Bool)) (σ σ1 σ' : Sem.SEnv) (c : SExp) (b e : List SStmt) (g : Bool)
+    (hc : Sem.semW σ (toP c) = some (.bool g)) (hb : execList (gs ++ [(.bool g, true)]) σ b = some σ1)
+    (he : execList (gs ++ [(.bool g, false)]) σ1 e = some σ') :
+    exec gs σ (.ifs c b e) = some σ' ∧ (g = false → SameVals σ σ1) ∧ (g = true → SameVals σ1 σ') ∧
+      ∀ (v o w : Sem.SVal), allHold gs = true → wrapW gs v o = some w → sameVal (some v) (some w) := by
+  obtain ⟨h1, h2, h3⟩ := if_runs_one_branch gs σ σ1 σ' c b e g hc hb he
+  exact ⟨h1, h2, h3, fun v o w hh hw => wrapW_taken gs hh v o w hw⟩
+
+open QV.A2A in
+/-- **ast2ast_if_preserved** (`if` **and** `for`) – running the rewritten straight-line list under `Sem.semProg` gives the value
 the source has under `execProg`: whenever the former is defined.  (An `if` in the *body* of an `if` makes the
 rewritten list read `_iftargN` before it is defined; such programs are outside `okProg`.)  Proof
 (`QV/Proofs/A2A1 … A2A6.lean`): simulation `ml_stmt` / `ml_list` by induction over the statement: the list
@@ -643,7 +669,13 @@ environment on the user variables (`Rel`), ends in such an environment, and the 
 one `exec` computes under the values of the guards; the guard variables are not touched (`Frame`; their names
 `_iftarg<hex n>` differ for different `n`: `iftargName_inj`).  One assignment: `assign_sim` – the if-expression
 chain `wrapE` evaluates to `wrapW` of the guard values (`semW_wrapE`); the pair `__t = …; t = __t` stores the
-same value because wrapping twice is wrapping once (`wrapW_idem`, from the closed form `wrapW_closed`). -/
+same value because wrapping twice is wrapping once (`wrapW_idem`, from the closed form `wrapW_closed`).
+Loops: the rewriter is run with the list `θ` of replacements of the enclosing loop variables (`NameValReplacer`,
+applied lazily); the invariant `ThetaOK θ σ` says each replaced variable holds, in the source environment, the
+constant it is replaced by, so the replaced expression has the value of the original (`substE_sem`; a shift amount
+must be a literal because `semW` reads it from the syntax); a target that is a loop variable becomes a constant and
+the real pass raises (`substE_name`), hence no assignment breaks the invariant; `forLoop_ml` is the induction over
+the values. -/
 theorem ast2ast_if_preserved (p : SProg) (hp : okProg p = true) (L : List SStmt) (st : RSt)
     (h : (rwSs [] p.body).run (initSt (aargsOf p)) = .ok (L, st)) (ρ : String → Bool) (sv : Sem.SVal)
     (hsem : Sem.semProg ⟨p.args, p.ret, L.map toStmt⟩ ρ = some sv) : execProg p ρ = some sv :=
@@ -700,6 +732,43 @@ example :
          [.ifs (.unop "Not" (.name "a")) [.assign [.name "a"] (.cmp "Eq" (.name "r") (.const (.int 0)))]
             [.assign [.name "r"] (.const (.int 3))]],
        .ret (some (.name "r"))]⟩
+    okProg p = true ∧ rejectReserved ((aargsOf p).map (·.1)) p.body = .ok () ∧ foldSs p.body = .ok p.body ∧
+      mtSs p.body = .ok p.body ∧
+      ∃ L st, (rwSs [] p.body).run (initSt (aargsOf p)) = .ok (L, st) ∧ foldSs L = .ok L ∧
+        Sem.guardedLine ⟨p.args, p.ret, L.map toStmt⟩ = true ∧
+        ∃ defs ev, translate Quirks.none [] ⟨p.args, p.ret, L.map toStmt⟩ = .ok (defs, ev) := by
+  refine ⟨by decide, rfl, rfl, rfl, _, _, rfl, rfl, by decide, _, _, rfl⟩
+
+open QV.A2A in
+/-- **C01_for** – `C01_if` is stated for `okProg`, which admits loops: this is the same statement, named for the
+loop case.  A `for` over a literal `range` / tuple / list is unrolled, the loop variable is assigned and replaced by
+each value (`visit_For`); the source-level meaning `execProg` iterates in the environment.  The hypothesis
+`foldSs L = .ok L` excludes bodies in which a replaced loop variable meets another constant (`s + (i + 1)`): there
+the second constant-folding pass computes on python ints what `semW` would compute at the constant's `Qint` type. -/
+theorem C01_for (p : SProg) (hp : okProg p = true) (L : List SStmt) (st : RSt)
+    (hres : rejectReserved ((aargsOf p).map (·.1)) p.body = .ok ()) (hf1 : foldSs p.body = .ok p.body)
+    (hmt : mtSs p.body = .ok p.body)
+    (hrw : (rwSs [] p.body).run (initSt (aargsOf p)) = .ok (L, st)) (hf2 : foldSs L = .ok L)
+    (consts : List (Bool × Bool)) (hg : Sem.guardedLine ⟨p.args, p.ret, L.map toStmt⟩ = true)
+    (defs : List (String × BExp)) (events : List String)
+    (htr : translate Quirks.none consts ⟨p.args, p.ret, L.map toStmt⟩ = .ok (defs, events)) (ρ : Env) :
+    (∃ log, ast2ast (aargsOf p) p.body = .ok (L, log)) ∧
+    ∃ sv, execProg p ρ = some sv ∧ (p.ret.names "_ret").map (runDefs defs ρ) = sv.bits :=
+  let ⟨h1, sv, h2, h3, _⟩ := C01_if p hp L st hres hf1 hmt hrw hf2 consts hg defs events htr ρ
+  ⟨h1, sv, h2, h3⟩
+
+open QV.A2A in
+/-- the hypotheses of `C01_for` are satisfiable: a loop over `range(1, 3)` with an augmented assignment that reads
+the loop variable and an `if` / `else` whose test reads it and whose branch re-assigns the test's variable -/
+example :
+    let p : SProg := ⟨[("a", .bool), ("r", .qint 2)], .qint 2,
+      [.for_ (.name "i") (.call "range" [.const (.int 1), .const (.int 3)])
+         [.aug (.name "r") "Add" (.name "i"),
+          .ifs (.cmp "Gt" (.name "r") (.name "i"))
+            [.assign [.name "r"] (.bin "BitXor" (.name "r") (.name "i")), .assign [.name "a"] (.unop "Not" (.name "a"))]
+            [.assign [.name "a"] (.const (.bool true))]]
+         [],
+       .ret (some (.ite (.name "a") (.name "r") (.name "i")))]⟩
     okProg p = true ∧ rejectReserved ((aargsOf p).map (·.1)) p.body = .ok () ∧ foldSs p.body = .ok p.body ∧
       mtSs p.body = .ok p.body ∧
       ∃ L st, (rwSs [] p.body).run (initSt (aargsOf p)) = .ok (L, st) ∧ foldSs L = .ok L ∧
